@@ -104,6 +104,11 @@ pub fn span_open_end(a: Time, b: Time) -> TimeSpan {
     TimeSpan { range: a..b, open_end: true, repeats: None }
 }
 
+/// `a-b/step`: a span with a repetition step of `minutes` (evaluated as the plain span).
+pub fn span_rep(a: Time, b: Time, minutes: i64) -> TimeSpan {
+    TimeSpan { range: a..b, open_end: false, repeats: Some(chrono::Duration::minutes(minutes)) }
+}
+
 pub fn comments(cs: &[&str]) -> Comments {
     cs.iter().map(|c| Arc::<str>::from(*c)).collect::<Vec<_>>().into()
 }
